@@ -160,7 +160,8 @@ def build() -> dict:
         "setup_cmd": "cd /verif && ./setup.sh",
         "hooks": {
             "guard": "PYJSONPATH_VERIF",
-            "enable": "environment variable PYJSONPATH_VERIF=1 (set by ./check); the code is imported from /repo's working tree, nothing is built",
+            "enable": "environment variable PYJSONPATH_VERIF=1 (set by ./check before jsonpath is imported from /repo's working tree; nothing is built). "
+                      "Hooks live in jsonpath/_verif.py and report filter resolutions and memo-cell reads/writes (used by C09's trace validation)",
             "baseline_off_cmd": BASELINE,
             "source_commits": HOOK_COMMITS,
             "add_only": True,
@@ -178,7 +179,9 @@ def build() -> dict:
     }
 
 
-HOOK_COMMITS: list = []
+import subprocess
+
+HOOK_COMMITS: list = subprocess.run(["git", "-C", "/repo", "log", "--format=%H", "--grep=^hooks:"], capture_output=True, text=True).stdout.split()
 
 if __name__ == "__main__":
     m = build()
